@@ -496,6 +496,8 @@ pyrule("D1.for_vec_while", for_vec_while, for_vec_while.__doc__)
 pyrule("D9.generic_path_param", generic_path_param, generic_path_param.__doc__)
 pyrule("D12.drop_thiserror_attrs", drop_attrs({"error", "from", "source"}),
        "thiserror helper attributes inside an error enum (#[error(..)], #[from]) are dropped; the From impls are written out")
+pyrule("D12.drop_default_attr", drop_attrs({"default"}),
+       "`#[default]` variant marker dropped; derive(Default) is written out as an impl with an `ensures`")
 pyrule("D12.drop_serde_attrs", drop_attrs({"serde", "serde_as", "cfg_attr"}),
        "serde helper attributes inside a type definition are dropped (default-feature serde impls are not verified)")
 
@@ -773,6 +775,36 @@ rule("D6.str_to_lowercase",
      "$recv . to_lowercase ( )",
      "shim_to_lowercase ( $recv )",
      "str::to_lowercase() (Unicode)")
+
+rule("D6.path_file_name",
+     "path . file_name ( )",
+     "shim_path_file_name ( path )",
+     "Path::file_name()")
+
+rule("D6.os_to_string_lossy",
+     "p . to_string_lossy ( )",
+     "shim_os_lossy ( p )",
+     "OsStr::to_string_lossy() as an owned String (the Cow is only read)")
+
+rule("D6.s_starts_with",
+     "s . starts_with ( $l:str )",
+     "shim_starts_with_str ( & s , $l )",
+     "String/Cow<str>::starts_with(literal)")
+
+rule("D6.s_ends_with",
+     "s . ends_with ( $l:str )",
+     "shim_ends_with_str ( & s , $l )",
+     "String/Cow<str>::ends_with(literal)")
+
+rule("D6.s_strip_prefix_contains",
+     "s . strip_prefix ( $a:str ) . is_some_and ( | rest | rest . contains ( $b:str ) )",
+     "shim_strip_prefix_contains ( & s , $a , $b )",
+     "s.strip_prefix(a).is_some_and(|rest| rest.contains(b))")
+
+rule("D6.s_contains",
+     "s . contains ( $l:str )",
+     "shim_contains_str ( & s , $l )",
+     "String/Cow<str>::contains(literal)")
 
 rule("D6.take_digits",
      "$recv . chars ( ) . take_while ( char :: is_ascii_digit ) . collect ( )",
